@@ -310,6 +310,12 @@ class ExcelModel:
         if stack is None:
             stack = {k for k in self.dsp.data_nodes if k not in self.references}
             stack = stack.difference(done)
+            stack.difference_update(  # Ranges fully assembled from known cells.
+                o for d in self.dsp.function_nodes.values()
+                if isinstance(d['function'], RangesAssembler) and
+                not isinstance(d['function'], InvRangesAssembler) and
+                not d['function'].missing for o in d['outputs']
+            )
         stack = sorted(stack)
         sheet_limits = {}
         while stack:
